@@ -6,10 +6,11 @@
 import Gzx.Util
 import Gzx.Model.EffectSummary
 import Gzx.Model.EffectLink
+import Gzx.Model.LazyInit
 import Gzx.Gen.C18Effects
 import Gzx.Ref.C18Allowed
 namespace Gzx.Driver.C18Gen
-open Gzx Gzx.EffectSummary Gzx.EffectLink
+open Gzx Gzx.EffectSummary Gzx.EffectLink Gzx.Interference Gzx.LazyInit
 
 def showCodes (xs : List Nat) : String :=
   if xs.isEmpty then "-" else ";".intercalate (xs.map decodeName)
@@ -65,6 +66,33 @@ def listByName : String → Option String
 
 def b (x : Bool) : String := if x then "1" else "0"
 
+/-- the lazy structure the `lrun` command runs over: groups 0 and 1 with flags at locations 0 and 1 (group 2 has its
+    "flag" at location 2, which is also a cell — malformed on purpose), cells 2 ↦ (0,7), 3 ↦ (0,9), 4 ↦ (1,11) -/
+def drvL : Lazy := ⟨fun k => k, fun loc =>
+  if loc = 2 then some (0, 7) else if loc = 3 then some (0, 9) else if loc = 4 then some (1, 11) else none⟩
+
+/-- step language of `lrun`: `r<reg>.<loc>` read, `w<loc>.<reg>.<k>` G[loc] := p[reg]+k, `g<greg>.<loc>.<reg>.<k>`
+    the same guarded by p[greg] = 0, `o<k>` once -/
+def parseLStep (t : String) : Option LStep :=
+  let nums (rest : List Char) : Option (List Nat) := ((String.ofList rest).splitOn ".").mapM (·.toNat?)
+  match t.toList with
+  | 'r' :: rest => match nums rest with
+    | some [r, l] => some (.read r l)
+    | _ => none
+  | 'w' :: rest => match nums rest with
+    | some [l, r, k] => some (.write (fun _ => true) l (fun p => p r + (k : Int)))
+    | _ => none
+  | 'g' :: rest => match nums rest with
+    | some [gr, l, r, k] => some (.write (fun p => p gr == 0) l (fun p => p r + (k : Int)))
+    | _ => none
+  | 'o' :: rest => match nums rest with
+    | some [k] => some (.once k)
+    | _ => none
+  | _ => none
+
+def parseLProg (s : String) : Option (List LStep) :=
+  if s == "-" || s.isEmpty then some [] else (s.splitOn ";").mapM parseLStep
+
 def handle : List String → String
   | ["list", name] => (listByName name).getD "bad-list"
   | ["uncovered"] =>
@@ -85,6 +113,16 @@ def handle : List String → String
     match parsePairs xs, parsePairs ys with
     | some a, some c => s!"{b (subPairs a c)}{b (eqPairs a c)}{b (sortedPairs a)}{b (sortedPairs c)}|{(missingPairs a c).length}"
     | _, _ => "bad-op"
+  | ["lrun", p0, p1, p2, sched, regs] =>
+    -- three goroutines, schedule of digits 0/1/2; prints registers 0..regs-1 of each and G[0..7]
+    match parseLProg p0, parseLProg p1, parseLProg p2, regs.toNat? with
+    | some a, some c, some d, some n =>
+      let prog : Gid → List LStep := fun g => if g = 0 then a else if g = 1 then c else if g = 2 then d else []
+      let sc := sched.toList.filterMap (fun ch => if ch = '0' then some 0 else if ch = '1' then some 1 else if ch = '2' then some 2 else none)
+      let st := lrun drvL prog sc (init (fun _ _ => 0) (fun _ => 0))
+      let show1 (g : Nat) := ",".intercalate ((List.range n).map (fun r => toString (st.P g r)))
+      s!"{show1 0}|{show1 1}|{show1 2}|" ++ ",".intercalate ((List.range 8).map (fun l => toString (st.G l)))
+    | _, _, _, _ => "bad-op"
   | ["enc", hex] =>
     -- text given as hex bytes (names may contain any character)
     match (Gzx.parseHex? hex) with
